@@ -14,7 +14,7 @@ def needs_space(a, b):
 
 def render(toks, mode, rnd=None, marker_gaps=None):
     """toks: list of spellings (pragma chunks contain their own newlines).
-    mode: 'space' | 'lines' | 'tight' | 'random' | 'markers'."""
+    mode: 'space' | 'lines' | 'tight' | 'random' | 'markers' | 'sameline'."""
     out = []
     n = len(toks)
     for i, t in enumerate(toks):
@@ -32,6 +32,9 @@ def render(toks, mode, rnd=None, marker_gaps=None):
             gap = " " if needs_space(t, nxt) else ""
         elif mode == "random":
             gap = rnd.choice([" ", "  ", "\t", "\n", " \n\t ", "\n\n"])
+        elif mode == "sameline":
+            # every token on a line of its own, each line renumbered to the same number: all tokens share (line, column)
+            gap = "\n# 7 \"same.h\"\n"
         elif mode == "markers":
             if marker_gaps is not None:
                 hit = i in marker_gaps
